@@ -25,12 +25,16 @@ Every exclusion is justified below by a witness on the model (section "Why each 
   `floorSum` cells wider than the offer — the precise bound is `table_general_bound` (`excluded_min_width_column`); in an
   expanding table every ratio is allowed on the code with the repaired flexible-width clamp (fix 75c2776), and no `ratio=0` column
   on the code before it (finding `table-ratio-zero-column`, found by this check: `old_ratio_zero_column_overflows`);
+* `Constrain` / `Align`, which render their child at a narrower width, put NO condition on that width: `render_fits_any` bounds every
+  line by `max w (smin r)` at every width.  What is asked instead is LOCAL: a table with free columns — and `Columns` — must be offered
+  one cell per column at the width it is really laid out for (its own `Table(width=…)`, else the width on offer).  At top level that is
+  implied by `smin r ≤ w`; inside a `Constrain` / `Align` narrower than that it is a real condition — NOT DISCHARGED there: no
+  counterexample is known (evaluated directly on rich in every run, and a brute-force search over 4k such tables on real rich); it needs
+  one arithmetic fact about `_calculate_column_widths`: free columns offered less than one cell each all end at one cell;
 * `Columns(width=…)`: `excluded_columns_width_zero` shows the bound failing for `width=0`; for `width ≥ 1` no counterexample is known
-  (evaluated directly on rich in every run) — NOT DISCHARGED: it needs the bound of `_calculate_column_widths` for fixed-width columns;
-* `Constrain` / `Align` render their child at a narrower width, which `Dom` asks to be at or above the child's structural minimum, and an
-  explicit `Table(width=tw)` must leave one cell per column — NOT DISCHARGED, no counterexample known (both are evaluated directly on
-  rich in every run): they would follow from "below its structural minimum a renderable is never wider than that minimum", which needs
-  `_calculate_column_widths` below one cell per column;
+  (evaluated directly on rich in every run, brute-forced over 40k cases) — NOT DISCHARGED: the inner grid's fixed-width columns exceed
+  C07's `tableBudget` whenever both paddings are positive and there are two or more columns, where only the last-resort `ratio_reduce`
+  brings the widths back; no theorem covers that path;
 * a rule is in the domain under every options, `overflow="ignore"` included (its text is exactly `w` cells wide: `text_fits_nowrap`),
   provided the text it yields has no tab when it is not going to be truncated;
 * bar / progress bar: proper fractions (positive denominators) and no negative `width` — every value the wire format can carry.
@@ -48,12 +52,19 @@ columns of expanding tables.)
 namespace RichModel.C01
 open RichModel RichModel.Frames RichModel.Layout
 
-/-- **render_fits.**  For every renderable tree, every options, every width `w` at or above the structural minimum of the tree
-(inside the domain `Dom`): no line of `Console.render(tree, options)` occupies more than `w` terminal cells.  No bound on the depth
-of the nesting, the number of children, rows, columns or characters, or on `w`. -/
+/-- **render_fits_any.**  For every renderable tree, every options and EVERY width `w ≥ 1` (inside the domain `Dom`): no line of
+`Console.render(tree, options)` occupies more than `max w (smin r)` terminal cells — the available width when it is at or above the
+structural minimum of the tree, and below it never more than that structural minimum.  No bound on the depth of the nesting, the number
+of children, rows, columns or characters, or on `w`.  (This is what lets `Constrain` / `Align` render their child at any narrower width.) -/
+theorem render_fits_any (cfg : Cfg) (ok : CfgOk cfg) (r : R) (o : Opts) (w : Nat) (hw : 1 ≤ w) (hd : Dom cfg r o w) :
+    Fits cfg.cw (max w (smin cfg.cw r)) (render cfg r o w) :=
+  (good cfg ok r o w hw hd).1
+
+/-- **render_fits.**  At or above the structural minimum: no line of `Console.render(tree, options)` occupies more than `w` cells. -/
 theorem render_fits (cfg : Cfg) (ok : CfgOk cfg) (r : R) (o : Opts) (w : Nat)
-    (hs : smin cfg.cw r ≤ w) (hd : Dom cfg r o w) : Fits cfg.cw w (render cfg r o w) :=
-  (good cfg ok r o w (Nat.le_trans (smin_pos cfg.cw r) hs) hs hd).1
+    (hs : smin cfg.cw r ≤ w) (hd : Dom cfg r o w) : Fits cfg.cw w (render cfg r o w) := by
+  have h := render_fits_any cfg ok r o w (Nat.le_trans (smin_pos cfg.cw r) hs) hd
+  rwa [Nat.max_eq_left hs] at h
 
 /-- The same through the observation point of the property: `Console.render` (with its `max_width < 1` guard), the stream split
 by `Segment.split_lines`, every line measured by `Segment.cell_length`. -/
@@ -68,7 +79,7 @@ theorem rendered_lines_fit (cfg : Cfg) (ok : CfgOk cfg) (r : R) (o : Opts) (w : 
 /-- A renderable that ends its last line (statically: `closedR`) really does: what follows it in a group starts on a fresh line. -/
 theorem render_closed (cfg : Cfg) (ok : CfgOk cfg) (r : R) (o : Opts) (w : Nat)
     (hs : smin cfg.cw r ≤ w) (hd : Dom cfg r o w) (hc : closedR r = true) : Closed (render cfg r o w) :=
-  (good cfg ok r o w (Nat.le_trans (smin_pos cfg.cw r) hs) hs hd).2 hc
+  (good cfg ok r o w (Nat.le_trans (smin_pos cfg.cw r) hs) hd).2 hc
 
 /-- the structural minimum is never 0: there is always room for one character -/
 theorem smin_positive (cw : Char → Nat) (r : R) : 1 ≤ smin cw r := smin_pos cw r
@@ -145,11 +156,10 @@ theorem old_ratio_zero_column_overflows :
 /-- the repaired code (`max(minimum, width)`): the same table is in the domain (`render_fits` applies) and is exactly as wide as asked -/
 example : Dom nowCfg wRatioZero {} 13 := by
   rw [wRatioZero, Dom]
-  refine ⟨trivial, trivial, Or.inl ⟨?_, ?_⟩⟩
-  · intro c hc
-    simp only [List.mem_cons, List.not_mem_nil, or_false] at hc
-    rcases hc with rfl | rfl | rfl <;> exact ⟨⟨rfl, rfl, rfl⟩, Or.inl ⟨rfl, rfl⟩⟩
-  · intro tw h; cases h
+  refine ⟨trivial, trivial, Or.inl ⟨?_, Or.inr (by decide)⟩⟩
+  intro c hc
+  simp only [List.mem_cons, List.not_mem_nil, or_false] at hc
+  rcases hc with rfl | rfl | rfl <;> exact ⟨⟨rfl, rfl, rfl⟩, Or.inl ⟨rfl, rfl⟩⟩
 example : (widthsOf wRatioZero 13).all (· == 13) = true ∧ (widthsOf wRatioZero 30).all (· == 30) = true := by decide +kernel
 
 /-! ## Why each exclusion of `Dom` is there: the bound really fails -/
